@@ -243,10 +243,8 @@ Qed.
 
 (* ------------------------------------------------------------------ expressions *)
 
-Definition is_uplus (e : expr) : bool := match e with EUn UPlus _ => true | _ => false end.
-
 Definition Lex (e : expr) : Prop :=
-  wf e = true -> lex_ok e = true ->
+  wf e = true ->
   no_fuse (pp_items e) = true /\
   (exists t, firstI (pp_items e) = Some t /\ fc t = true /\ (t = TSym S_PLUS -> is_uplus e = true)) /\
   (exists z, lastI (pp_items e) = Some z /\ lc z = true /\ (head_bare e = true -> lcb z = true)).
@@ -254,9 +252,9 @@ Definition Lex (e : expr) : Prop :=
 Definition FCe (t : tok) : Prop := fc t = true.
 Definition LCe (z : tok) : Prop := lc z = true.
 
-Lemma lex_good : forall e, Lex e -> wf e = true -> lex_ok e = true -> Good FCe LCe (pp_items e).
+Lemma lex_good : forall e, Lex e -> wf e = true -> Good FCe LCe (pp_items e).
 Proof.
-  intros e H Hwf Hl. destruct (H Hwf Hl) as (N & (t & F & FC & _) & (z & L & LC & _)).
+  intros e H Hwf. destruct (H Hwf) as (N & (t & F & FC & _) & (z & L & LC & _)).
   repeat split; eauto.
 Qed.
 
@@ -270,7 +268,7 @@ Proof. intros t [->|[i ->]]; reflexivity. Qed.
 
 Lemma lex_const : forall k n v, Lex (EConst k n v).
 Proof.
-  intros k n v Hwf _. cbn [pp_items].
+  intros k n v Hwf. cbn [pp_items].
   assert (Hc : fc (const_tok k v) = true /\ lc (const_tok k v) = true /\ const_tok k v <> TSym S_PLUS /\
                fuses (TSym S_MINUS) (const_tok k v) = false).
   { destruct k; cbn [const_tok]; [| | |destruct (N.eqb v 0)]; repeat split; discriminate. }
@@ -293,14 +291,14 @@ Qed.
 
 Lemma lex_param : forall i, Lex (EParam i).
 Proof.
-  intros i _ _. cbn [pp_items]. split; [reflexivity|split].
+  intros i _. cbn [pp_items]. split; [reflexivity|split].
   - eexists. split; [reflexivity|]. split; [reflexivity|intro; discriminate].
   - eexists. split; [reflexivity|]. split; reflexivity.
 Qed.
 
 Lemma lex_pathref : forall m n ss, Lex (EPathRef m n ss).
 Proof.
-  intros m n ss Hwf _. cbn [pp_items wf] in *.
+  intros m n ss Hwf. cbn [pp_items wf] in *.
   destruct (name_good m n) as (Nn & (tn & Fn & i & ->) & (zn & Ln & j & ->)).
   destruct ss as [|s ss].
   - unfold pp_steps. cbn [flat_map]. rewrite app_nil_r. split; [assumption|split].
@@ -317,7 +315,7 @@ Qed.
 
 Lemma lex_partial : forall ss, Lex (EPathPartial ss).
 Proof.
-  intros ss Hwf _. cbn [pp_items wf] in *. apply andb_prop in Hwf as [Hh Hws].
+  intros ss Hwf. cbn [pp_items wf] in *. apply andb_prop in Hwf as [Hh Hws].
   destruct ss as [|s ss]; [discriminate|].
   destruct (steps_good (s :: ss) Hws ltac:(discriminate)) as (Ns & (fs & Fs & FCs) & (zs & Ls & LCs)).
   destruct (stepF_fc _ FCs) as [F1 F2].
@@ -344,9 +342,9 @@ Proof. intros e H. destruct e as [| | | | |[]| | | | | | | | | | |]; try reflexi
 
 Lemma lex_pathexpr : forall h ss, Lex h -> Lex (EPathExpr h ss).
 Proof.
-  intros h ss IH Hwf Hl. cbn [wf lex_ok] in *. apply andb_prop in Hwf as [Hwf Hws]. apply andb3 in Hwf as (Hwh & _ & Hne).
+  intros h ss IH Hwf. cbn [wf] in *. apply andb_prop in Hwf as [Hwf Hws]. apply andb3 in Hwf as (Hwh & _ & Hne).
   destruct ss as [|s ss]; [discriminate|].
-  destruct (IH Hwh Hl) as (Nh & (fh & Fh & FCh & Uh) & (zh & Lh & LCh & Bh)).
+  destruct (IH Hwh) as (Nh & (fh & Fh & FCh & Uh) & (zh & Lh & LCh & Bh)).
   destruct (steps_good (s :: ss) Hws ltac:(discriminate)) as (Ns & (fs & Fs & FCs) & (zs & Ls & LCs)).
   assert (Hsne : pp_steps (s :: ss) <> []) by (intro E; rewrite E in Fs; discriminate).
   cbn [pp_items]. destruct (head_bare h) eqn:Hb.
@@ -367,26 +365,45 @@ Proof.
     + exists zs. split; [rewrite lastI_app; assumption|]. split; [apply stepL_lc; assumption|intro; discriminate].
 Qed.
 
+Lemma ne_first : forall (X : list item) t, firstI X = Some t -> X <> [].
+Proof. intros X t H E. rewrite E in H. discriminate. Qed.
+
+Lemma wrap_lex : forall b L f z, no_fuse L = true -> firstI L = Some f -> lastI L = Some z -> fc f = true -> lc z = true ->
+  no_fuse (wrap_if b L) = true /\
+  (exists f', firstI (wrap_if b L) = Some f' /\ fc f' = true /\ (f' = TSym S_PLUS -> b = false /\ f = TSym S_PLUS)) /\
+  (exists z', lastI (wrap_if b L) = Some z' /\ lc z' = true).
+Proof.
+  intros b L f z N F La FC LC. destruct b; unfold wrap_if.
+  - destruct (fc_after _ FC) as (A1 & _). destruct (lc_before _ LC) as (C1 & _). cbn [app]. split; [|split].
+    + apply (nf_wrap _ _ _ f z); assumption.
+    + exists (TSym S_LPAREN). split; [reflexivity|]. split; [reflexivity|intro; discriminate].
+    + exists (TSym S_RPAREN). split; [apply lastI_wrap|reflexivity].
+  - split; [assumption|split]; [exists f|exists z]; auto.
+Qed.
+
 Lemma lex_un : forall o x, Lex x -> Lex (EUn o x).
 Proof.
-  intros o x IH Hwf Hl. cbn [wf lex_ok] in *. apply andb3 in Hwf as (Hwx & _ & _). apply andb_prop in Hl as [Hlx Hpl].
-  destruct (IH Hwx Hlx) as (Nx & (fx & Fx & FCx & Ux) & (zx & Lx & LCx & _)).
+  intros o x IH Hwf. cbn [wf] in *. apply andb3 in Hwf as (Hwx & _ & _).
+  destruct (IH Hwx) as (Nx & (fx & Fx & FCx & Ux) & (zx & Lx & LCx & _)).
   destruct (fc_after _ FCx) as (A1 & _ & _ & _ & _ & A6 & A7). destruct (lc_before _ LCx) as (C1 & _).
+  pose proof (ne_first _ _ Fx) as Hne.
   cbn [pp_items]. destruct o; cbn [un_word un_sym] in *.
   - (* + *)
-    assert (Hne : fx <> TSym S_PLUS).
-    { intro E. specialize (Ux E). destruct x as [| | | | |[]| | | | | | | | | | |]; discriminate. }
-    split; [|split].
-    + cbn [app]. rewrite (nf_consS _ _ fx) by assumption. rewrite (A7 Hne), Nx. reflexivity.
-    + exists (TSym S_PLUS). split; [reflexivity|]. split; reflexivity.
-    + exists zx. split; [|split; [assumption|intro; discriminate]].
-      cbn [app]. rewrite lastI_cons; [assumption|]. intro E. rewrite E in Fx. discriminate.
+    destruct (is_uplus x) eqn:Eu; cbn [app].
+    + split; [|split].
+      * rewrite nf_S_sp. assumption.
+      * exists (TSym S_PLUS). split; [reflexivity|]. split; reflexivity.
+      * exists zx. split; [|split; [assumption|intro; discriminate]]. rewrite !lastI_cons by (assumption || discriminate). assumption.
+    + assert (Hp : fx <> TSym S_PLUS) by (intro E; specialize (Ux E); congruence).
+      split; [|split].
+      * rewrite (nf_consS _ _ fx) by assumption. rewrite (A7 Hp), Nx. reflexivity.
+      * exists (TSym S_PLUS). split; [reflexivity|]. split; reflexivity.
+      * exists zx. split; [|split; [assumption|intro; discriminate]]. rewrite lastI_cons by assumption. assumption.
   - (* - *)
     split; [|split].
     + cbn [app]. rewrite (nf_consS _ _ fx) by assumption. rewrite A6, Nx. reflexivity.
     + exists (TSym S_MINUS). split; [reflexivity|]. split; [reflexivity|intro; discriminate].
-    + exists zx. split; [|split; [assumption|intro; discriminate]].
-      cbn [app]. rewrite lastI_cons; [assumption|]. intro E. rewrite E in Fx. discriminate.
+    + exists zx. split; [|split; [assumption|intro; discriminate]]. cbn [app]. rewrite lastI_cons by assumption. assumption.
   - split; [|split].
     + cbn [app]. rewrite nf_S_sp_S. apply (nf_wrap _ _ _ fx zx); assumption.
     + exists (TSym S_NOT). split; [reflexivity|]. split; [reflexivity|intro; discriminate].
@@ -410,16 +427,18 @@ Ltac lex_last_rparen :=
 
 Lemma lex_bin : forall o l r, Lex l -> Lex r -> Lex (EBin o l r).
 Proof.
-  intros o l r IHl IHr Hwf Hl. cbn [wf lex_ok] in *. apply andb3 in Hwf as (Hwl & Hwr & _). apply andb_prop in Hl as [Hll Hlr].
-  destruct (IHl Hwl Hll) as (Nl & (fl & Fl & FCl & _) & (zl & Ll & LCl & _)).
-  destruct (IHr Hwr Hlr) as (Nr & (fr & Fr & FCr & _) & (zr & Lr & LCr & _)).
+  intros o l r IHl IHr Hwf. cbn [wf] in *. apply andb3 in Hwf as (Hwl & Hwr & _).
+  destruct (IHl Hwl) as (Nl0 & (fl0 & Fl0 & FCl0 & _) & (zl0 & Ll0 & LCl0 & _)).
+  destruct (wrap_lex (swallows (LBin o) l) _ _ _ Nl0 Fl0 Ll0 FCl0 LCl0) as (Nl & (fl & Fl & FCl & _) & (zl & Ll & LCl)).
+  set (W := wrap_if (swallows (LBin o) l) (pp_items l)) in *.
+  destruct (IHr Hwr) as (Nr & (fr & Fr & FCr & _) & (zr & Lr & LCr & _)).
   destruct (fc_after _ FCl) as (A1 & _). destruct (lc_before _ LCr) as (C1 & _).
-  cbn [pp_items]. split; [|split].
+  cbn [pp_items]. fold W. split; [|split].
   - cbn [app]. rewrite (nf_consS _ _ fl) by (apply firstI_app; assumption).
     rewrite nf_app_sp, Nl, A1. cbn [negb andb].
     rewrite nf_app_sp, nf_sym_items. rewrite (nf_snocS _ zr) by assumption. rewrite Nr, C1. reflexivity.
   - lex_first S_LPAREN.
-  - lex_last_rparen. cbn [app]. rewrite lastI_cons by (destruct (pp_items l); discriminate).
+  - lex_last_rparen. cbn [app]. rewrite lastI_cons by (destruct W; discriminate).
     rewrite lastI_app by discriminate. cbn [app]. rewrite lastI_cons by (destruct (sym_items (op_syms o)); discriminate).
     rewrite lastI_app by discriminate. cbn [app]. rewrite lastI_cons by (destruct (pp_items r); discriminate).
     apply lastI_snocS.
@@ -427,32 +446,34 @@ Qed.
 
 Lemma lex_is : forall neg l t, Lex l -> Lex (EIs neg l t).
 Proof.
-  intros neg l t IHl Hwf Hl. cbn [wf lex_ok] in *. apply andb3 in Hwf as (Hwl & Hwt & _).
-  destruct (IHl Hwl Hl) as (Nl & (fl & Fl & FCl & _) & (zl & Ll & LCl & _)).
+  intros neg l t IHl Hwf. cbn [wf] in *. apply andb3 in Hwf as (Hwl & Hwt & _).
+  destruct (IHl Hwl) as (Nl0 & (fl0 & Fl0 & FCl0 & _) & (zl0 & Ll0 & LCl0 & _)).
+  destruct (wrap_lex (swallows LIs l) _ _ _ Nl0 Fl0 Ll0 FCl0 LCl0) as (Nl & (fl & Fl & FCl & _) & (zl & Ll & LCl)).
+  set (W := wrap_if (swallows LIs l) (pp_items l)) in *.
   destruct (type_good t true Hwt) as (Nt & (ft & Ft & FCt) & (zt & Lt & LCt)).
   destruct (fc_after _ FCl) as (A1 & _).
   assert (C1 : fuses zt (TSym S_RPAREN) = false) by (destruct LCt as [->|[->|[k ->]]]; reflexivity).
-  cbn [pp_items]. split; [|split].
+  cbn [pp_items]. fold W. split; [|split].
   - cbn [app]. rewrite (nf_consS _ _ fl) by (apply firstI_app; assumption).
     rewrite nf_app_sp, Nl, A1. cbn [negb andb].
     destruct neg; cbn [app]; rewrite ?nf_S_sp_S; rewrite nf_S_sp; rewrite (nf_snocS _ zt) by assumption; rewrite Nt, C1; reflexivity.
   - lex_first S_LPAREN.
-  - lex_last_rparen. cbn [app]. rewrite lastI_cons by (destruct (pp_items l); discriminate).
+  - lex_last_rparen. cbn [app]. rewrite lastI_cons by (destruct W; discriminate).
     rewrite lastI_app by discriminate. destruct neg; cbn [app]; rewrite !lastI_cons by (try discriminate; destruct (pp_type true t); discriminate);
       apply lastI_snocS.
 Qed.
 
 Lemma lex_if : forall py c a b, Lex c -> Lex a -> Lex b -> Lex (EIf py c a b).
 Proof.
-  intros py c a b IHc IHa IHb Hwf Hl. cbn [lex_ok] in Hl. apply andb3 in Hl as (Hlc & Hla & Hlb).
+  intros py c a b IHc IHa IHb Hwf.
   assert (Hw : wf c = true /\ wf a = true /\ wf b = true).
   { cbn [wf] in Hwf. destruct py.
     - apply andb_prop in Hwf as [Hwf _]. apply andb_prop in Hwf as [Hwf _]. apply andb3 in Hwf. exact Hwf.
     - apply andb_prop in Hwf as [Hwf _]. apply andb3 in Hwf. exact Hwf. }
   destruct Hw as (Hwc & Hwa & Hwb).
-  destruct (IHc Hwc Hlc) as (Nc & (fc' & Fc & FCc & _) & (zc & Lc & LCc & _)).
-  destruct (IHa Hwa Hla) as (Na & (fa & Fa & FCa & _) & (za & La & LCa & _)).
-  destruct (IHb Hwb Hlb) as (Nb & (fb & Fb & FCb & _) & (zb & Lb & LCb & _)).
+  destruct (IHc Hwc) as (Nc & (fc' & Fc & FCc & _) & (zc & Lc & LCc & _)).
+  destruct (IHa Hwa) as (Na & (fa & Fa & FCa & _) & (za & La & LCa & _)).
+  destruct (IHb Hwb) as (Nb & (fb & Fb & FCb & _) & (zb & Lb & LCb & _)).
   destruct (lc_before _ LCb) as (C1 & _).
   cbn [pp_items]. destruct py.
   - destruct (fc_after _ FCa) as (A1 & _). split; [|split].
@@ -478,30 +499,31 @@ Qed.
 
 Lemma lex_detached : forall x, Lex x -> Lex (EDetached x).
 Proof.
-  intros x IH Hwf Hl. cbn [wf lex_ok] in *. apply andb_prop in Hwf as [Hwx _].
-  destruct (IH Hwx Hl) as (Nx & (fx & Fx & FCx & _) & (zx & Lx & LCx & _)).
+  intros x IH Hwf. cbn [wf] in *. apply andb_prop in Hwf as [Hwx _].
+  destruct (IH Hwx) as (Nx0 & (fx0 & Fx0 & FCx0 & _) & (zx0 & Lx0 & LCx0 & _)).
+  destruct (wrap_lex (det_paren x) _ _ _ Nx0 Fx0 Lx0 FCx0 LCx0) as (Nx & (fx & Fx & FCx & _) & (zx & Lx & LCx)).
   cbn [pp_items app]. split; [|split].
   - rewrite nf_S_sp. assumption.
   - lex_first S_DETACHED.
   - exists zx. split; [|split; [assumption|intro; discriminate]].
-    rewrite !lastI_cons; [assumption|intro E; rewrite E in Fx; discriminate|discriminate].
+    rewrite !lastI_cons; [assumption|apply (ne_first _ _ Fx)|discriminate].
 Qed.
 
 Lemma lex_global : forall m n, Lex (EGlobal m n).
 Proof.
-  intros m n _ _. cbn [pp_items app].
+  intros m n _. cbn [pp_items app].
   destruct (name_good m n) as (Nn & (tn & Fn & i & ->) & (zn & Ln & j & ->)).
   split; [|split].
   - rewrite nf_S_sp. assumption.
   - lex_first S_GLOBAL.
   - exists (TId j). split; [|split; [reflexivity|intro; discriminate]].
-    rewrite !lastI_cons; [assumption|intro E; rewrite E in Fn; discriminate|discriminate].
+    rewrite !lastI_cons; [assumption|apply (ne_first _ _ Fn)|discriminate].
 Qed.
 
-Lemma lex_cast : forall opt t x, Lex x -> Lex (ECast opt t x).
+Lemma lex_cast : forall cm t x, Lex x -> Lex (ECast cm t x).
 Proof.
-  intros opt t x IH Hwf Hl. cbn [wf lex_ok] in *. apply andb3 in Hwf as (Hwt & Hwx & _).
-  destruct (IH Hwx Hl) as (Nx & (fx & Fx & FCx & _) & (zx & Lx & LCx & _)).
+  intros cm t x IH Hwf. cbn [wf] in *. apply andb3 in Hwf as (Hwt & Hwx & _).
+  destruct (IH Hwx) as (Nx & (fx & Fx & FCx & _) & (zx & Lx & LCx & _)).
   destruct (type_good t false Hwt) as (Nt & (ft & Ft & FCt) & (zt & Lt & LCt)).
   destruct (fc_after _ FCx) as (_ & _ & _ & _ & A5 & _).
   assert (T1 : fuses (TSym S_LANGBRACKET) ft = false) by (destruct FCt as [->|[k ->]]; reflexivity).
@@ -510,33 +532,26 @@ Proof.
   { rewrite no_fuse_app, Nt, Lt. rewrite (nf_consS _ _ fx) by assumption. rewrite firstI_S. cbn [bnd].
     rewrite A5, Nx, T2. reflexivity. }
   cbn [pp_items]. split; [|split].
-  - destruct opt; cbn [app].
+  - destruct cm; cbn [app].
+    + rewrite (nf_consS _ _ ft) by (apply firstI_app; assumption). rewrite T1, Hcore. reflexivity.
     + change (no_fuse (S S_LANGBRACKET :: S S_OPTIONAL :: ISp :: pp_type false t ++ S S_RANGBRACKET :: pp_items x))
         with (no_fuse (pp_type false t ++ S S_RANGBRACKET :: pp_items x)). exact Hcore.
-    + rewrite (nf_consS _ _ ft) by (apply firstI_app; assumption). rewrite T1, Hcore. reflexivity.
+    + change (no_fuse (S S_LANGBRACKET :: S S_REQUIRED :: ISp :: pp_type false t ++ S S_RANGBRACKET :: pp_items x))
+        with (no_fuse (pp_type false t ++ S S_RANGBRACKET :: pp_items x)). exact Hcore.
   - lex_first S_LANGBRACKET.
   - exists zx. split; [|split; [assumption|intro; discriminate]].
-    assert (Hx : pp_items x <> []) by (intro E; rewrite E in Fx; discriminate).
-    destruct opt; cbn [app]; rewrite !lastI_cons by (try discriminate; destruct (pp_type false t); discriminate);
+    pose proof (ne_first _ _ Fx) as Hx.
+    destruct cm; cbn [app]; rewrite !lastI_cons by (try discriminate; destruct (pp_type false t); discriminate);
       rewrite lastI_app by discriminate; cbn [app]; rewrite lastI_cons by assumption; assumption.
 Qed.
 
 (* ------------------------------------------------------------------ lists *)
 
-Lemma lex_list_forallb : forall es,
-  (fix go (l : list expr) : bool := match l with [] => true | x :: r => lex_ok x && go r end) es = forallb lex_ok es.
-Proof. induction es as [|x r IH]; [reflexivity|]. cbn [forallb]. rewrite <- IH. reflexivity. Qed.
-
-Lemma lex_fields_forallb : forall fs,
-  (fix go (l : list (N * expr)) : bool := match l with [] => true | (_, x) :: r => lex_ok x && go r end) fs =
-  forallb (fun p => lex_ok (snd p)) fs.
-Proof. induction fs as [|[n x] r IH]; [reflexivity|]. cbn [forallb snd]. rewrite <- IH. reflexivity. Qed.
-
-Lemma good_list : forall es, Forall Lex es -> forallb wf es = true -> forallb lex_ok es = true ->
+Lemma good_list : forall es, Forall Lex es -> forallb wf es = true ->
   Forall (fun x => Good FCe LCe (pp_items x)) es.
 Proof.
-  induction es as [|x r IH]; intros HL Hw Hl; [constructor|].
-  inversion HL; subst. cbn [forallb] in *. apply andb_prop in Hw as [Hwx Hwr]. apply andb_prop in Hl as [Hlx Hlr].
+  induction es as [|x r IH]; intros HL Hw; [constructor|].
+  inversion HL; subst. cbn [forallb] in *. apply andb_prop in Hw as [Hwx Hwr].
   constructor; [apply lex_good; assumption|apply IH; assumption].
 Qed.
 
@@ -545,22 +560,21 @@ Proof.
   intros n x (Nx & (fx & Fx & FCx) & (zx & Lx & LCx)). cbn [pp_field app]. split; [|split].
   - change (no_fuse (IT (TId n) :: ISp :: S S_ASSIGN :: ISp :: pp_items x)) with (no_fuse (pp_items x)). assumption.
   - exists (TId n). split; reflexivity.
-  - exists zx. split; [|assumption]. rewrite !lastI_cons; [assumption|intro E; rewrite E in Fx; discriminate|discriminate|discriminate|discriminate].
+  - exists zx. split; [|assumption]. rewrite !lastI_cons; [assumption|apply (ne_first _ _ Fx)|discriminate|discriminate|discriminate].
 Qed.
 
 Lemma good_fields : forall fs, Forall (fun p => Lex (snd p)) fs -> forallb (fun p => wf (snd p)) fs = true ->
-  forallb (fun p => lex_ok (snd p)) fs = true ->
   Forall (fun p => Good FCe LCe (pp_field (fun x => pp_items x) p)) fs.
 Proof.
-  induction fs as [|[n x] r IH]; intros HL Hw Hl; [constructor|].
-  inversion HL; subst. cbn [forallb snd] in *. apply andb_prop in Hw as [Hwx Hwr]. apply andb_prop in Hl as [Hlx Hlr].
+  induction fs as [|[n x] r IH]; intros HL Hw; [constructor|].
+  inversion HL; subst. cbn [forallb snd] in *. apply andb_prop in Hw as [Hwx Hwr].
   constructor; [apply field_good; apply lex_good; assumption|apply IH; assumption].
 Qed.
 
 Lemma lex_seq : forall sk es, Forall Lex es -> Lex (ESeq sk es).
 Proof.
-  intros sk es HL Hwf Hl. rewrite wf_seq_forallb in Hwf. cbn [lex_ok] in Hl. rewrite lex_list_forallb in Hl.
-  pose proof (good_list es HL Hwf Hl) as HG. cbn [pp_items].
+  intros sk es HL Hwf. rewrite wf_seq_forallb in Hwf.
+  pose proof (good_list es HL Hwf) as HG. cbn [pp_items].
   destruct es as [|x r].
   - unfold comma_sep. cbn [sep_by]. destruct sk; cbn [app]; (split; [reflexivity|split]);
       try (lex_first S_LPAREN); try (lex_first S_LBRACKET); try (lex_first S_LBRACE);
@@ -593,9 +607,8 @@ Qed.
 
 Lemma lex_named : forall fs, Forall (fun p => Lex (snd p)) fs -> Lex (ENamedTuple fs).
 Proof.
-  intros fs HL Hwf Hl. cbn [wf lex_ok] in *. apply andb_prop in Hwf as [Hne Hwf]. rewrite wf_fields in Hwf.
-  rewrite lex_fields_forallb in Hl.
-  pose proof (good_fields fs HL Hwf Hl) as HG.
+  intros fs HL Hwf. cbn [wf] in *. apply andb_prop in Hwf as [Hne Hwf]. rewrite wf_fields in Hwf.
+  pose proof (good_fields fs HL Hwf) as HG.
   destruct fs as [|p r]; [discriminate|].
   destruct (comma_sep_good _ (pp_field (fun x => pp_items x)) FCe LCe (p :: r) HG LCe_comma ltac:(discriminate))
     as (Nc & (f & F & FC) & (z & L & LC)).
@@ -609,10 +622,9 @@ Qed.
 
 Lemma lex_call : forall m fn args kw, Forall Lex args -> Forall (fun p => Lex (snd p)) kw -> Lex (ECall m fn args kw).
 Proof.
-  intros m fn args kw HLa HLk Hwf Hl. cbn [wf lex_ok] in *. apply andb3 in Hwf as (Hwa & Hwk & _).
+  intros m fn args kw HLa HLk Hwf. cbn [wf] in *. apply andb3 in Hwf as (Hwa & Hwk & _).
   rewrite wf_list_forallb in Hwa. rewrite wf_fields in Hwk.
-  apply andb_prop in Hl as [Hla Hlk]. rewrite lex_list_forallb in Hla. rewrite lex_fields_forallb in Hlk.
-  pose proof (good_list args HLa Hwa Hla) as HGa. pose proof (good_fields kw HLk Hwk Hlk) as HGk.
+  pose proof (good_list args HLa Hwa) as HGa. pose proof (good_fields kw HLk Hwk) as HGk.
   destruct (name_good m fn) as (Nn & (tn & Fn & i & ->) & (zn & Ln & j & ->)).
   set (CSa := comma_sep (fun x => pp_items x) args).
   set (CSk := comma_sep (pp_field (fun x => pp_items x)) kw).
@@ -630,7 +642,7 @@ Proof.
       + rewrite no_fuse_app, N1, L1. cbn [app]. rewrite nf_S_sp, firstI_S, N2. cbn [bnd]. rewrite (LCe_comma _ LC1). reflexivity.
       + exists f1. split; [apply firstI_app; assumption|assumption].
       + exists z2. split; [|assumption]. rewrite lastI_app by discriminate. cbn [app].
-        rewrite !lastI_cons; [assumption|intro E; rewrite E in F2; discriminate|discriminate]. }
+        rewrite !lastI_cons; [assumption|apply (ne_first _ _ F2)|discriminate]. }
   cbn [pp_items]. fold CSa CSk SEP.
   assert (Eq : pp_name m fn ++ [S S_LPAREN] ++ CSa ++ SEP ++ CSk ++ [S S_RPAREN] =
                pp_name m fn ++ S S_LPAREN :: (CSa ++ SEP ++ CSk) ++ [S S_RPAREN]).
@@ -650,25 +662,13 @@ Proof.
 Qed.
 
 (* indirection *)
-Definition lex_opt (o : option expr) : bool := match o with Some x => lex_ok x | None => true end.
-
-Lemma lex_ixs_forallb : forall ixs,
-  (fix go (l : list (bool * option expr * option expr)) : bool :=
-     match l with
-     | [] => true
-     | (_, a, b) :: r =>
-         (match a with Some x => lex_ok x | None => true end) &&
-         (match b with Some x => lex_ok x | None => true end) && go r
-     end) ixs = forallb (fun ix => lex_opt (snd (fst ix)) && lex_opt (snd ix)) ixs.
-Proof. induction ixs as [|[[sl a] b] r IH]; [reflexivity|]. cbn [forallb fst snd lex_opt]. rewrite <- IH. reflexivity. Qed.
-
 Definition IxGood (l : list item) : Prop :=
   no_fuse l = true /\ firstI l = Some (TSym S_LBRACKET) /\ lastI l = Some (TSym S_RBRACKET).
 
 Lemma ix_good : forall sl a b, optP Lex a -> optP Lex b -> wf_ix (sl, a, b) = true ->
-  lex_opt a = true -> lex_opt b = true -> IxGood (pp_ix (fun x => pp_items x) (sl, a, b)).
+  IxGood (pp_ix (fun x => pp_items x) (sl, a, b)).
 Proof.
-  intros sl a b Ma Mb Hwf Hla Hlb. unfold wf_ix in Hwf. apply andb3 in Hwf as (Hwa & Hwb & Hshape).
+  intros sl a b Ma Mb Hwf. unfold wf_ix in Hwf. apply andb3 in Hwf as (Hwa & Hwb & Hshape).
   cbn [pp_ix].
   assert (GA : forall x, a = Some x -> Good FCe LCe (pp_items x)).
   { intros x ->. apply lex_good; assumption. }
@@ -711,29 +711,28 @@ Proof.
 Qed.
 
 Lemma ixs_good : forall ixs, Forall (fun t => optP Lex (snd (fst t)) /\ optP Lex (snd t)) ixs ->
-  forallb wf_ix ixs = true -> forallb (fun ix => lex_opt (snd (fst ix)) && lex_opt (snd ix)) ixs = true -> ixs <> [] ->
+  forallb wf_ix ixs = true -> ixs <> [] ->
   IxGood (flat_map (pp_ix (fun x => pp_items x)) ixs).
 Proof.
-  induction ixs as [|[[sl a] b] r IH]; intros HL Hw Hl Hne; [congruence|].
+  induction ixs as [|[[sl a] b] r IH]; intros HL Hw Hne; [congruence|].
   inversion HL as [|? ? [Ma Mb] HLr]; subst. cbn [fst snd] in Ma, Mb.
-  cbn [forallb fst snd] in *. apply andb_prop in Hw as [Hw1 Hwr]. apply andb_prop in Hl as [Hl1 Hlr].
-  apply andb_prop in Hl1 as [Hla Hlb].
-  destruct (ix_good sl a b Ma Mb Hw1 Hla Hlb) as (N1 & F1 & L1). cbn [flat_map].
+  cbn [forallb fst snd] in *. apply andb_prop in Hw as [Hw1 Hwr].
+  destruct (ix_good sl a b Ma Mb Hw1) as (N1 & F1 & L1). cbn [flat_map].
   destruct r as [|ix2 r]; [cbn [flat_map]; rewrite app_nil_r; repeat split; assumption|].
-  destruct (IH HLr Hwr Hlr ltac:(discriminate)) as (N2 & F2 & L2).
+  destruct (IH HLr Hwr ltac:(discriminate)) as (N2 & F2 & L2).
   split; [|split].
   - rewrite no_fuse_app, N1, N2, L1, F2. reflexivity.
   - apply firstI_app; assumption.
-  - rewrite lastI_app; [assumption|]. intro E. rewrite E in F2. discriminate.
+  - rewrite lastI_app; [assumption|]. apply (ne_first _ _ F2).
 Qed.
 
 Lemma lex_indir : forall x ixs, Lex x -> Forall (fun t => optP Lex (snd (fst t)) /\ optP Lex (snd t)) ixs -> Lex (EIndir x ixs).
 Proof.
-  intros x ixs IH HL Hwf Hl. cbn [wf lex_ok] in *. apply andb_prop in Hwf as [Hwf Hwi]. apply andb3 in Hwf as (Hwx & _ & Hne).
-  rewrite wf_ixs in Hwi. apply andb_prop in Hl as [Hlx Hli]. rewrite lex_ixs_forallb in Hli.
+  intros x ixs IH HL Hwf. cbn [wf] in *. apply andb_prop in Hwf as [Hwf Hwi]. apply andb3 in Hwf as (Hwx & _ & Hne).
+  rewrite wf_ixs in Hwi.
   destruct ixs as [|ix ixs]; [discriminate|].
-  destruct (IH Hwx Hlx) as (Nx & (fx & Fx & FCx & _) & (zx & Lx & LCx & _)).
-  destruct (ixs_good (ix :: ixs) HL Hwi Hli ltac:(discriminate)) as (Ni & Fi & Li).
+  destruct (IH Hwx) as (Nx & (fx & Fx & FCx & _) & (zx & Lx & LCx & _)).
+  destruct (ixs_good (ix :: ixs) HL Hwi ltac:(discriminate)) as (Ni & Fi & Li).
   destruct (fc_after _ FCx) as (A1 & _). destruct (lc_before _ LCx) as (C1 & _).
   cbn [pp_items].
   assert (Eq : [S S_LPAREN] ++ pp_items x ++ [S S_RPAREN] ++ flat_map (pp_ix (fun x => pp_items x)) (ix :: ixs) =
@@ -743,49 +742,45 @@ Proof.
   - rewrite no_fuse_app. rewrite (nf_wrap _ _ _ fx zx) by assumption. rewrite Ni, lastI_wrap, Fi. reflexivity.
   - lex_first S_LPAREN.
   - exists (TSym S_RBRACKET). split; [|split; [reflexivity|intro; discriminate]].
-    rewrite lastI_app; [assumption|]. intro E. rewrite E in Fi. discriminate.
+    rewrite lastI_app; [assumption|]. apply (ne_first _ _ Fi).
 Qed.
 
 (* shapes *)
-Lemma lex_els_forallb : forall els,
-  (fix go (l : list (N * option expr)) : bool :=
-     match l with [] => true | (_, c) :: r => (match c with Some y => lex_ok y | None => true end) && go r end) els =
-  forallb (fun p => lex_opt (snd p)) els.
-Proof. induction els as [|[n c] r IH]; [reflexivity|]. cbn [forallb snd lex_opt]. rewrite <- IH. reflexivity. Qed.
-
 Lemma good_els : forall els, Forall (fun p => optP Lex (snd p)) els ->
   forallb (fun p => match snd p with Some y => wf y | None => true end) els = true ->
-  forallb (fun p => lex_opt (snd p)) els = true ->
   Forall (fun p => Good FCe LCe (pp_el (fun x => pp_items x) p)) els.
 Proof.
-  induction els as [|[n c] r IH]; intros HL Hw Hl; [constructor|].
-  inversion HL as [|? ? Mc HLr]; subst. cbn [forallb snd] in *. apply andb_prop in Hw as [Hwc Hwr]. apply andb_prop in Hl as [Hlc Hlr].
+  induction els as [|[n c] r IH]; intros HL Hw; [constructor|].
+  inversion HL as [|? ? Mc HLr]; subst. cbn [forallb snd] in *. apply andb_prop in Hw as [Hwc Hwr].
   constructor; [|apply IH; assumption].
-  cbn [pp_el]. destruct c as [y|]; cbn [optP lex_opt app] in *.
-  - destruct (lex_good y Mc Hwc Hlc) as (Ny & (fy & Fy & FCy) & (zy & Ly & LCy)). split; [|split].
+  cbn [pp_el]. destruct c as [y|]; cbn [optP app] in *.
+  - destruct (lex_good y Mc Hwc) as (Ny & (fy & Fy & FCy) & (zy & Ly & LCy)). split; [|split].
     + change (no_fuse (IT (TId n) :: ISp :: S S_ASSIGN :: ISp :: pp_items y)) with (no_fuse (pp_items y)). assumption.
     + exists (TId n). split; reflexivity.
     + exists zy. split; [|assumption].
-      rewrite !lastI_cons; [assumption|intro E; rewrite E in Fy; discriminate|discriminate|discriminate|discriminate].
+      rewrite !lastI_cons; [assumption|apply (ne_first _ _ Fy)|discriminate|discriminate|discriminate].
   - split; [reflexivity|split]; exists (TId n); split; reflexivity.
 Qed.
 
-Lemma uplus_brace : forall y k, rspine (EUn UPlus y) (TSym S_LBRACE :: k) = false.
+Lemma uplus_swallows_brace : forall y, swallows LBrace (EUn UPlus y) = true.
 Proof. reflexivity. Qed.
 
 Lemma lex_shape : forall x els, Lex x -> Forall (fun p => optP Lex (snd p)) els -> Lex (EShape x els).
 Proof.
-  intros x els IH HL Hwf Hl. cbn [wf lex_ok] in *. apply andb_prop in Hwf as [Hwf Hwe]. apply andb3 in Hwf as (Hwx & Hrx & Hne).
-  rewrite wf_els in Hwe. apply andb_prop in Hl as [Hlx Hle]. rewrite lex_els_forallb in Hle.
+  intros x els IH HL Hwf. cbn [wf] in *. apply andb_prop in Hwf as [Hwf Hwe]. apply andb3 in Hwf as (Hwx & Hrx & Hne).
+  rewrite wf_els in Hwe.
   destruct els as [|el els]; [discriminate|].
-  destruct (IH Hwx Hlx) as (Nx & (fx & Fx & FCx & Ux) & (zx & Lx & LCx & _)).
-  pose proof (good_els (el :: els) HL Hwe Hle) as HG.
+  destruct (IH Hwx) as (Nx0 & (fx0 & Fx0 & FCx0 & Ux) & (zx0 & Lx0 & LCx0 & _)).
+  destruct (wrap_lex (swallows LBrace x) _ _ _ Nx0 Fx0 Lx0 FCx0 LCx0) as (Nx & (fx & Fx & FCx & Px) & (zx & Lx & LCx)).
+  set (W := wrap_if (swallows LBrace x) (pp_items x)) in *.
+  pose proof (good_els (el :: els) HL Hwe) as HG.
   destruct (comma_sep_good _ (pp_el (fun x => pp_items x)) FCe LCe (el :: els) HG LCe_comma ltac:(discriminate))
     as (Nc & (f & F & FC) & (z & L & LC)).
-  cbn [pp_items]. split; [|split].
+  cbn [pp_items]. fold W. split; [|split].
   - cbn [app]. rewrite nf_app_sp, Nx. cbn [andb]. rewrite nf_S_sp. rewrite nf_app_sp, Nc. reflexivity.
   - exists fx. split; [apply firstI_app; assumption|]. split; [assumption|].
-    intro E. specialize (Ux E). destruct x as [| | | | |[] y| | | | | | | | | | |]; try discriminate.
+    intro E. destruct (Px E) as [Eb Ef]. specialize (Ux Ef).
+    destruct x as [| | | | |[] y| | | | | | | | | | |]; try discriminate.
   - exists (TSym S_RBRACE). split; [|split; [reflexivity|intro; discriminate]].
     rewrite lastI_app by discriminate. cbn [app]. rewrite !lastI_cons by (try discriminate; destruct (comma_sep (pp_el (fun x => pp_items x)) (el :: els)); discriminate).
     rewrite lastI_app by discriminate. reflexivity.
@@ -815,5 +810,5 @@ Proof.
   - apply lex_shape; assumption.
 Qed.
 
-Theorem lex_stable : forall e, wf e = true -> lex_ok e = true -> no_fuse (pp_items e) = true.
-Proof. intros e Hwf Hl. destruct (lex_main e Hwf Hl) as (H & _). exact H. Qed.
+Theorem lex_stable : forall e, wf e = true -> no_fuse (pp_items e) = true.
+Proof. intros e Hwf. destruct (lex_main e Hwf) as (H & _). exact H. Qed.
